@@ -144,6 +144,22 @@ def run(ctx):
                     ok = e["func"].startswith("Mailbox.")
                     ctx.ob("R13.reach", construct_of(e), ok, e,
                            "" if ok else "messages are inserted outside the Mailbox handle")
+    # R13.pin: a listener that outlives its connection's close / disconnect
+    # makes every sweep re-stamp the mailbox, which then never expires
+    ctx.rule("R13.pin", "listeners are removed on close and on disconnect (same rule "
+             "instances as R02.key): a leaked listener pins its mailbox forever")
+    from . import c02
+    from ..report import Ctx
+    sub = Ctx(model, "C02", ctx.tier)
+    c02.run(sub)
+    npin = 0
+    for o in sub.obligations:
+        if o.rule == "R02.key" and ("removed" in o.construct):
+            npin += 1
+            ctx.ob("R13.pin", o.construct, o.ok, o.site, o.detail +
+                   ("" if o.ok else " -- the sweep touches every mailbox that has a "
+                    "listener, so this mailbox, its messages and its nameplate never expire"))
+    ctx.require("R13.pin", npin, 2, "listener removal obligations")
     # R13.timer
     info = model.timer_info()
     if not info:
